@@ -94,9 +94,9 @@ func (b *c14Backend) outcome(r *zsim.Run, o *zsim.Tape) (error, bool) {
 func c14Run(r *zsim.Run) {
 	timex.ZsimReset()
 	o := r.Ops
-	class := o.Intn(12) // mostly random concurrent histories; 9 contended failing backend; 10 health scenario; 11 starvation scenario
+	class := o.Intn(12) // mostly random concurrent histories; 8-9 contended failing backend; 10 health scenario; 11 starvation scenario
 	switch class {
-	case 9:
+	case 8, 9:
 		c14Contended(r)
 	case 10:
 		c14Health(r)
@@ -292,7 +292,7 @@ func c14Contended(r *zsim.Run) {
 	for i := range bes {
 		bes[i] = &c14Backend{latency: zsim.Pick(o, time.Duration(0), time.Millisecond, 10*time.Millisecond), mode: 1}
 	}
-	r.StallOdds = zsim.Pick(o, 5, 10)
+	r.StallOdds = zsim.Pick(o, 3, 5)
 	r.StallUnit = time.Millisecond
 	callers := 4
 	r.Logf("contended n=%d stalls=%d backends=%v", n, r.StallOdds, c14Desc(bes))
@@ -300,14 +300,14 @@ func c14Contended(r *zsim.Run) {
 	doneCnt := 0
 	for c := 0; c < callers; c++ {
 		who := fmt.Sprintf("caller%d", c)
-		steps := 10 + o.Intn(20)
+		steps := 20 + o.Intn(30)
 		r.Go(who, func() {
 			defer func() { doneCnt++ }()
 			for s := 0; s < steps && !r.Failed(); s++ {
 				if !c14Cycle(r, p, ids, bes, o, who) {
 					return
 				}
-				if gap := zsim.Pick(o, time.Duration(0), 0, time.Millisecond, 5*time.Millisecond); gap > 0 {
+				if gap := zsim.Pick(o, time.Duration(0), 0, 0, time.Millisecond); gap > 0 {
 					zsim.Sleep(gap)
 				}
 			}
